@@ -1050,6 +1050,9 @@ func labelState(u *vk.Unit, c fcase) {
 	}
 }
 
+// mustFailGroups: stage groups that the property's statement enumerates.
+var mustFailGroups = map[string]bool{"config": true, "spec-read": true, "spec-parse": true, "route-build": true}
+
 func TestFailureStages(t *testing.T) {
 	u := vk.New(t, "C20", "failure-stages")
 	defer u.Close()
@@ -1069,6 +1072,9 @@ func TestFailureStages(t *testing.T) {
 			if fails[st.Name] != st.Expect && first == 0 {
 				u.Label("stage-calibration-differs-from-expectation:" + st.Name)
 			}
+			// the stages the property itself names (unreadable or invalid config; unreadable or malformed
+			// spec; routing conflict) are failures BY the property: "it exits non-zero"
+
 		}
 		u.Set("stages", table)
 		u.Set("failing_stages", nf)
@@ -1097,6 +1103,16 @@ func TestFailureStages(t *testing.T) {
 		labelState(u, c)
 		if c.State.nonEmpty() {
 			u.Sample(map[string]any{"state": c.State.Name, "hash": c.State.hash(), "entries": len(c.State.Entries), "prev_gen": c.State.PrevGen, "clean": c.Clean, "rel": c.Rel})
+		}
+		if c.State.Absent {
+			// the stages the property itself names (unreadable or invalid config; unreadable or malformed
+			// spec; routing conflict) are failures BY the property: "it exits non-zero"
+			fails := calibrate(t)
+			for _, st := range stages() {
+				if st.Expect && !fails[st.Name] && mustFailGroups[st.Group] {
+					return vk.F("named-failure-stage-exits-zero", "stage %s [%s] (flags %v): the command exits 0 on an absent target although the property names this condition as a failure before writing", st.Name, st.Group, st.Flags)
+				}
+			}
 		}
 		return checkAllFailureStages(u, t, c, true)
 	}
